@@ -380,9 +380,74 @@ def _value_objects():
         raise ExtractionError("probe 'value objects of two equally sized nodes' raised %s: %s" % (type(e).__name__, e))
 
 
+def _views_live(mirror_id):
+    """Do the views of a topology show the slice as it is NOW?  A real topology is read through every view the collectors
+    use (interface_list, nodes, network_services, facilities) and collected; then it GROWS on the nodes it has - a NIC on an
+    existing node, a bridge on its port whose service port is labelled, a mirror of that port - and shrinks again; after every
+    step each view and the collector must show the ports / services the slice has at that moment (`mirror_id` absent while the
+    mirrored port is in the slice, present once its bridge is gone)."""
+    try:
+        from fim.user.topology import ExperimentTopology
+        from fim.slivers.capacities_labels import Capacities, Labels
+        from fim.slivers.component_catalog import ComponentModelType
+        from fim.slivers.network_service import ServiceType
+        m, cls = _load()
+        t = ExperimentTopology()
+        try:
+            live = True
+            n1 = t.add_node(name="probe-a", site=PROBE_SITE, capacities=Capacities(core=1, ram=2, disk=3))
+            n2 = t.add_node(name="probe-b", site=PROBE_SITE, capacities=Capacities(core=1, ram=2, disk=3))
+            c2 = n2.add_component(name="probe-c2", model_type=ComponentModelType.SmartNIC_ConnectX_6)
+
+            def views():
+                az = cls()
+                az.collect_resource_attributes(source=t)
+                inports = set()
+                for i in t.interface_list:
+                    for p in i.get_peers() or []:
+                        if p.labels is not None and p.labels.local_name is not None:
+                            inports.add(p.labels.local_name)
+                return (sorted(i.name for i in t.interface_list), sorted(t.nodes.keys()), sorted(t.network_services.keys()),
+                        sorted(t.facilities.keys()), sorted(inports), bool(az._attributes.get(mirror_id)))
+            v0 = views()
+            c1 = n1.add_component(name="probe-c1", model_type=ComponentModelType.SmartNIC_ConnectX_6)
+            new_ports = sorted(i.name for i in c1.interface_list)
+            v1 = views()
+            if v1[0] != sorted(v0[0] + new_ports) or v1[1] != v0[1] or not new_ports:
+                live = False
+            t.add_network_service(name="probe-br", nstype=ServiceType.L2Bridge, interfaces=[c1.interface_list[0]])
+            c1.interface_list[0].get_peers()[0].set_properties(labels=Labels(local_name=PROBE_PORT))
+            v2 = views()
+            if "probe-br" not in v2[2] or v2[4] != [PROBE_PORT] or v2[5]:
+                live = False
+            t.add_port_mirror_service(name="probe-pm", from_interface_name=PROBE_PORT, to_interface=c2.interface_list[1])
+            v3 = views()
+            if "probe-pm" not in v3[2] or v3[4] != [PROBE_PORT] or v3[5]:
+                live = False            # the mirrored port is a port of the slice: no mirror site
+            t.remove_network_service(name="probe-br")
+            v4 = views()
+            if "probe-br" in v4[2] or v4[4] != [] or not v4[5]:
+                live = False            # ... and is outside it once its bridge is gone
+            t.add_facility(name="probe-f", site=PROBE_SITE, capacities=Capacities(bw=10))
+            v5 = views()
+            if v5[3] != ["probe-f"] or "probe-f-ns" not in v5[2] or v5[0] != v4[0]:
+                live = False
+            return live
+        finally:
+            try:
+                t.graph_model.delete_graph()
+            except Exception:
+                pass
+    except ExtractionError:
+        raise
+    except Exception as e:
+        raise ExtractionError("probe 'a slice growing on the nodes it has' raised %s: %s" % (type(e).__name__, e))
+
+
 def generate():
     x = extract()
     x["reads_fresh"] = _value_objects()
+    x["views_live"] = _views_live(x["consts"][dict(x["lut"])[x["exempt"]]])
     order = x["order"]
     b = []
     b.append("/-- attribute-id constants of %s, in source order -/" % CLS)
@@ -405,6 +470,9 @@ def generate():
     b.append("/-- behavioural probe on a real topology: an object read from an element (attribute, get_property, get_sliver) is "
              "private to that read - changing it in place changes no later read of any element -/")
     b.append("def readsFresh : Bool := %s\n" % ("true" if x["reads_fresh"] else "false"))
+    b.append("/-- behavioural probe on a real topology: the views the collectors read (interface_list, nodes, network_services, "
+             "facilities) show the slice as it is at the time of the read, also after it grew / shrank on the nodes it has -/")
+    b.append("def viewsLive : Bool := %s\n" % ("true" if x["views_live"] else "false"))
     if x["type_key"] != "RESOURCE_TYPE" or x["site_key"] != "RESOURCE_SITE":
         # Model/Authz.lean names these two constructors
         raise ExtractionError("the resource-type / common site attributes are %s / %s, the model names RESOURCE_TYPE / RESOURCE_SITE"
@@ -412,4 +480,4 @@ def generate():
     changed = emit("Authz", "\n".join(b))
     return {"keys": len(order), "rows": len(x["rows"]), "lut": x["lut"], "categories": len(x["cats"]),
             "ignored_constants": x["ignored_constants"], "span_hashes": x["hashes"], "changed": changed,
-            "probes": {"port_pairs": len(PORT_PROBES) ** 2, "reads_fresh": x["reads_fresh"]}}
+            "probes": {"port_pairs": len(PORT_PROBES) ** 2, "reads_fresh": x["reads_fresh"], "views_live": x["views_live"]}}
